@@ -1136,6 +1136,10 @@ class Engine:
                 self.oblige(inner, f"comp{self.comp_ordinal(e)}:filter:rejected_predicate_is_its_negation", rej_fl.pred(x, *ps) == z3.Not(kept_fl.pred(x, *ps)))
                 none_ = (lambda l_, f=rej_fl, ps=ps: f(l_, *ps))
                 all_ = (lambda l_, f=kept_fl, ps=ps: f(l_, *ps))
+                if len(spec) > 3 and spec[3] is not None:
+                    if spec[3].base is not kept_fl:
+                        raise OutOfSubset("filter_specs: the count function must count the kept predicate")
+                    s = s.assume(length(R) == spec[3](seq, *ps))      # filter lemma: as many results as elements satisfying P
             elif pure and paths:
                 xv = z3.Const(f"filt_x!{next(VAL._fresh)}", V)
                 cterm = z3.substitute(z3.simplify(z3.Or(*[z3.And(*s2.conds[len(inner.conds):], tv) for (s2, tv) in paths])), (z3.simplify(x), xv))
